@@ -38,10 +38,13 @@ func (r *DecodeResult) decode(data []byte) error {
 	dec := csproto.NewDecoder(data)
 	dec.SetMode(csproto.DecoderModeFast)
 	for dec.More() {
+		fieldStart := dec.Offset()
 		tag, wt, err := dec.DecodeTag()
 		if err != nil {
 			return err
 		}
+		// number of bytes the key occupies on the wire (more than SizeOfTagKey(tag) for a padded key)
+		keyLen := dec.Offset() - fieldStart
 
 		flatIdx, hasFlat := slices.BinarySearch(r.flatTags, tag)
 		if !hasFlat {
@@ -67,7 +70,7 @@ func (r *DecodeResult) decode(data []byte) error {
 			}
 
 			// Skip() returns the entire field contents, both the tag and the value, so we need to skip past the tag
-			val = val[csproto.SizeOfTagKey(tag):]
+			val = val[keyLen:]
 			fd.wt = wt
 			fd.data = append(fd.data, val)
 		case csproto.WireTypeLengthDelimited:
